@@ -216,15 +216,6 @@ func (s *lpSched) step(th *lpThread) {
 	s.receive(th)
 }
 
-func (th *lpThread) holdsAny() bool {
-	for _, c := range th.count {
-		if c > 0 {
-			return true
-		}
-	}
-	return false
-}
-
 // stuck records that no thread can make progress although calls are
 // in flight. The blocked goroutines are abandoned.
 func (s *lpSched) stuck() {
